@@ -158,7 +158,11 @@ impl SwiftField for Field61 {
         // The rest is 16x[//16x] on this line and [34x] on an optional second line
         let remaining = &input[pos..];
         let (reference_line, supplementary_details) = match remaining.split_once('\n') {
-            Some((line, details)) => (line, Some(details.to_string())),
+            // a line ends with LF or CR LF, as in every other multi-line field
+            Some((line, details)) => (
+                line.strip_suffix('\r').unwrap_or(line),
+                Some(details.to_string()),
+            ),
             None => (remaining, None),
         };
         let (customer_reference, bank_reference) = match reference_line.split_once("//") {
